@@ -15,6 +15,7 @@ pub mod c11;
 pub mod c12;
 pub mod c13;
 pub mod c14;
+pub mod c15;
 pub mod c16;
 pub mod c17;
 pub mod c18;
@@ -43,6 +44,7 @@ pub fn all() -> Vec<Property> {
         Property { id: "C12", run: c12::run, replay: c12::replay },
         Property { id: "C13", run: c13::run, replay: c13::replay },
         Property { id: "C14", run: c14::run, replay: c14::replay },
+        Property { id: "C15", run: c15::run, replay: c15::replay },
         Property { id: "C16", run: c16::run, replay: c16::replay },
         Property { id: "C17", run: c17::run, replay: c17::replay },
         Property { id: "C18", run: c18::run, replay: c18::replay },
